@@ -54,7 +54,18 @@ def install_world(S, st):
 
     def acquire(S, sem, blocking=True, timeout=None):
         sure = blocking is True and timeout is None
-        got = True if sure else (S.choose(2) == 0)
+        if sure:
+            got = True
+        elif blocking is not False and timeout is not None:
+            # a timed acquire gives up under contention the sequential simulation cannot produce: it may fail
+            got = S.choose(2) == 0
+        else:
+            # a try-acquire succeeds exactly when a permit is free right now (sequential semantics of the simulation;
+            # the interleavings that matter are introduced at the scheduling points below)
+            in_use = held.get(key(sem), 0)
+            val = sem.fields["value"]
+            free = (in_use < val) if isinstance(val, int) else S.fork(SInt(z3.IntVal(in_use)) < val)
+            got = bool(free)
         S.event("sem_acquire", sem, got)
         if got:
             held[key(sem)] = held.get(key(sem), 0) + 1
@@ -105,6 +116,22 @@ def install_world(S, st):
             return
         run_thread(S, t)
 
+    def scheduling_point(S, lid):
+        """Taking a lock is a point where the OS may have let another thread run first: at most once per path, a thread
+        that was started but has not run yet runs to completion here (bodies are otherwise run at start() or at join)."""
+        if st.get("current") is not None or st.get("preempted") or st.get("in_sched"):
+            return
+        pending = [t for t in threads if not t.fields["ran"] and any(e[0] == "start" and e[1] is t for e in S.trace)]
+        if not pending or S.choose(2) == 0:
+            return
+        st["preempted"] = True
+        st["in_sched"] = True
+        try:
+            run_thread(S, pending[0])
+        finally:
+            st["in_sched"] = False
+
+    S.handlers["Lock.on_acquire"] = scheduling_point
     S.handlers[threading.Thread] = new_thread
     S.handlers["Thread.start"] = start
     S.handlers["Thread.join"] = lambda S, t, timeout=None: run_thread(S, t) if any(e[0] == "start" and e[1] is t for e in S.trace) else None
@@ -199,8 +226,13 @@ def judge_permits(S, st, tag, max_connections):
         if e[0] == "sem_acquire" and e[1] is sem and e[2]:
             pool += 1
         elif e[0] == "serve":
-            S.oblige(f"{tag}.serve_only_while_holding_a_permit", pool >= 1, kind="trace")
-            pool, in_use = pool - 1, in_use + 1
+            # a fresh permit, or one whose previous connection has been served to the end and that was kept
+            S.oblige(f"{tag}.serve_only_while_holding_a_permit", pool >= 1 or done >= 1, kind="trace")
+            if pool >= 1:
+                pool -= 1
+            else:
+                done -= 1
+            in_use += 1
         elif e[0] == "serve_end":
             in_use, done = in_use - 1, done + 1
         elif e[0] == "sem_release":
@@ -231,10 +263,9 @@ def judge_isolation(S, st, tag):
             S.oblige(f"{tag}.transport_belongs_to_an_accepted_connection", any(tp.fields["conn"] is c for c in conns), kind="trace")
     served_conns = [e[1].fields["conn"] for e in serves if isinstance(e[1], SObj) and e[1].kind == "Transport"]
     S.oblige(f"{tag}.no_connection_served_by_two_threads", all(sum(1 for x in served_conns if x is c) <= 1 for c in conns), kind="trace")
-    if st["factory"] == "returns":
-        S.oblige(f"{tag}.every_connection_served_in_its_own_thread", len(serves) == len(conns) and len({id(e[3]) for e in serves}) == len(serves) and all(e[3] is not None for e in serves), kind="trace")
+    # (how many threads serve them is the implementation's choice: a handler may go on to serve a queued connection)
     started = [e[1] for e in S.events("start")]
-    S.oblige(f"{tag}.one_started_thread_per_accepted_connection", len(started) == len(conns) and len({id(t) for t in started}) == len(started), kind="trace")
+    S.oblige(f"{tag}.no_thread_is_started_twice", len({id(t) for t in started}) == len(started), kind="trace")
 
 
 def replay_threaded(inputs, ob):
